@@ -87,6 +87,7 @@ def fworld (blk : String → Nat → Nat → Nat) (st : Strm) (scale : Nat) : Wo
   throw cls := throw cls
   rethrow := throw "reraise"
   catchAll body handler := tryCatch body (fun _ => handler)
+  catchCls cls body handler := tryCatch body (fun e => if e == cls then handler else throw e)
 
 theorem getDraw_labels (blk : String → Nat → Nat → Nat) (size : Nat) (pos : Sim → Option Nat) (ks : String) :
     ∀ (req : List Sim) (ds : List Draw), getDraw blk size pos ks req = .ok ds → ds.map (·.1) = req
